@@ -139,6 +139,9 @@ CHECKS = {
     "C44": ("mc-store", E1, "exhaustive enumeration (E1) of swap paths executed through real deposit instructions in the in-process runtime",
             "Every sequence of 0..3 markets out of four over three tokens (duplicates, non-chaining paths and paths through the deposit market included) x initial token x amounts as the swap path of a real create_deposit + execute_deposit: creation accepts exactly the duplicate-free chaining paths ending in the market's long token; after completion recorded balances and vaults move together, markets outside the path are untouched and every hop moved exactly the amounts of the C40-validated SDK swap in order; stored paths tampered to hold a duplicate never complete.",
             "paths of length 4-10, short-side paths, withdrawals and orders (same SwapMarkets code) are not enumerated", "§5 C44"),
+    "C37": ("mc-store", E1, "exhaustive enumeration (E1) of factor setters and of claim orders executed through the real treasury instruction in the in-process runtime",
+            "Config::set_gt_factor / set_buyback_factor over boundary factors from every reachable current value; the real complete_gt_exchange instruction (CPI into the store's close_gt_exchange, SPL transfers signed by the bank PDA) for all six claim orders of three claimants over a grid of one- and two-token bank balances and GT amounts: each claim = floor(balance*gt/remaining), never above holdings, at least the floor share of the original, recorded balance follows the vault, last claim drains, no double claim.",
+            "bank / exchange / treasury config accounts fabricated through hooked state functions; deposits into the bank and confirmation through treasury instructions are not explored", "§5 C37"),
 }
 
 NOT_YET = "no check built yet in this round (planned in DESIGN.md); not claimed"
